@@ -39,6 +39,22 @@ Agree(T, runs) ==
     (runs[a].outcome = "ok" /\ runs[b].outcome = "ok" /\ ~Opaque(runs[a]) /\ ~Opaque(runs[b])) =>
        (runs[a].vars = runs[b].vars /\ Same(T, runs[a].den, runs[b].den))
 
+(* Known finding F13: a text in "binary function style without parentheses" (`/ 1 2 * 3`, which the library's own tests   *)
+(* accept) - it starts with a binary-only operator, or has one directly after `(`, or two operands side by side, or `)(` -   *)
+(* may be accepted by both parsers with different meanings.  Classification computed from the tokens of the text.          *)
+PrefixStyle(T, txt) ==
+  LET l == Lex(T, txt) IN
+  IF l.st # "ok" THEN FALSE
+  ELSE LET d == Desugar(T, l.toks)
+           tk == IF d.st = "ok" THEN d.toks ELSE l.toks
+           operand(t) == t.t \in {"num", "var", "const"}
+           binOnly(t) == t.t = "op" /\ ~T[t.v].un
+       IN Len(tk) > 0 /\
+          ( \/ binOnly(tk[1])
+            \/ \E j \in 1..(Len(tk) - 1) :
+                  \/ (tk[j].t = "open" /\ binOnly(tk[j + 1]))
+                  \/ (operand(tk[j]) /\ operand(tk[j + 1]))
+                  \/ (tk[j].t = "close" /\ tk[j + 1].t = "open") )
 RECURSIVE FirstBad(_, _)
 FirstBad(vs, k) == IF k > Len(vs) THEN 0 ELSE IF vs[k] # "ok" THEN k ELSE FirstBad(vs, k + 1)
 
@@ -53,7 +69,8 @@ Judge(r) ==
                   [] OTHER        -> RunFree(r.runs[k])]
       b   == FirstBad(rv, 1)
   IN IF b # 0 THEN <<cls, rv[b], r.runs[b].entry>>
-     ELSE IF cls \in {"free", "unspec"} /\ ~Agree(T, r.runs) THEN <<cls, "bad:disagree", "*">>
+     ELSE IF cls \in {"free", "unspec"} /\ ~Agree(T, r.runs)
+          THEN <<cls, IF cls = "free" /\ PrefixStyle(T, r.text) THEN "bad:disagree[F13: prefix-style text]" ELSE "bad:disagree", "*">>
      ELSE IF cls = "wf" /\ ~ListingsCoincide(d, r.runs) THEN <<cls, "bad:listings-differ", "*">>
      ELSE <<cls, "ok", "*">>
 
